@@ -128,6 +128,71 @@ func nodeWrites(fset *token.FileSet, files []string) []string {
 	return out
 }
 
+// stateEvents lists, in source order, the assignments to fields of the tree (`m.root`, `m.size`,
+// `m.height`, the thresholds) and the calls whose error is checked, inside one method of *Mast.
+func stateEvents(fset *token.FileSet, fn *ast.FuncDecl) []string {
+	var out []string
+	recv := "m"
+	if fn.Recv != nil && len(fn.Recv.List) > 0 && len(fn.Recv.List[0].Names) > 0 {
+		recv = fn.Recv.List[0].Names[0].Name
+	}
+	isState := func(e ast.Expr) (string, bool) {
+		sel, ok := e.(*ast.SelectorExpr)
+		if !ok {
+			return "", false
+		}
+		id, ok := sel.X.(*ast.Ident)
+		if !ok || id.Name != recv {
+			return "", false
+		}
+		return recv + "." + sel.Sel.Name, true
+	}
+	ast.Inspect(fn.Body, func(n ast.Node) bool {
+		switch st := n.(type) {
+		case *ast.IncDecStmt:
+			if s, ok := isState(st.X); ok {
+				out = append(out, "W "+s)
+			}
+		case *ast.AssignStmt:
+			fallible := false
+			for _, l := range st.Lhs {
+				if id, ok := l.(*ast.Ident); ok && id.Name == "err" {
+					fallible = true
+				}
+			}
+			if fallible && len(st.Rhs) == 1 {
+				if c, ok := st.Rhs[0].(*ast.CallExpr); ok {
+					out = append(out, "F "+exprString(fset, c.Fun))
+				}
+			}
+			for _, l := range st.Lhs {
+				if s, ok := isState(l); ok {
+					out = append(out, "W "+s)
+				}
+			}
+		}
+		return true
+	})
+	return out
+}
+
+// writesBeforeLastFallible: state writes that are followed by a fallible call other than the
+// allowed ones (the height step, whose partial effect is the recorded C12 finding).
+func writesBeforeFallible(events []string, allowed map[string]bool) []string {
+	var bad []string
+	for i, e := range events {
+		if !strings.HasPrefix(e, "W ") {
+			continue
+		}
+		for _, f := range events[i+1:] {
+			if strings.HasPrefix(f, "F ") && !allowed[strings.TrimPrefix(f, "F ")] {
+				bad = append(bad, e+" before "+f)
+			}
+		}
+	}
+	return bad
+}
+
 func collectFacts(group string) map[string]interface{} {
 	fset := token.NewFileSet()
 	facts := map[string]interface{}{}
@@ -187,6 +252,42 @@ func collectFacts(group string) map[string]interface{} {
 		facts["store_no_inplace_before_commit"] = !strings.Contains(strings.Split(sb, "*commits = append")[0], "node.Link[i] =") &&
 			!strings.Contains(strings.Split(sb, "*commits = append")[0], "node.dirty = false")
 		facts["worker_checks_first_error"] = strings.Contains(body, "if firstStoreError != nil { seLock.Unlock() return }")
+	case "atomicity":
+		pf := parseFile(fset, "pub.go")
+		lf := parseFile(fset, "lib.go")
+		ins, del := findFunc(pf, "*Mast", "Insert"), findFunc(pf, "*Mast", "Delete")
+		gr, sh := findFunc(lf, "*Mast", "grow"), findFunc(lf, "*Mast", "shrink")
+		if ins == nil || del == nil || gr == nil || sh == nil {
+			facts["functions_found"] = false
+			break
+		}
+		sp := findFunc(lf, "*Mast", "savePathForRoot")
+		if sp == nil {
+			sp = findFunc(pf, "*Mast", "savePathForRoot")
+		}
+		if sp != nil {
+			facts["savePathForRoot.events"] = stateEvents(fset, sp)
+		}
+		// savePathForRoot installs the new root: count its call as a write of m.root
+		withInstall := func(ev []string) []string {
+			var out []string
+			for _, e := range ev {
+				out = append(out, e)
+				if e == "F m.savePathForRoot" {
+					out = append(out, "W m.root (installed by savePathForRoot)")
+				}
+			}
+			return out
+		}
+		ie, de := withInstall(stateEvents(fset, ins)), withInstall(stateEvents(fset, del))
+		facts["Insert.events"] = ie
+		facts["Delete.events"] = de
+		facts["grow.events"] = stateEvents(fset, gr)
+		facts["shrink.events"] = stateEvents(fset, sh)
+		// the tree's fields are assigned only after the last fallible call, apart from the height
+		// step (canGrow / grow, shrink) that runs after the change is installed: known finding
+		facts["Insert.state_writes_before_other_fallible_calls"] = writesBeforeFallible(ie, map[string]bool{"options.path[0].node.canGrow": true, "m.grow": true})
+		facts["Delete.state_writes_before_other_fallible_calls"] = writesBeforeFallible(de, map[string]bool{"m.shrink": true})
 	case "writes":
 		facts["node_writes"] = nodeWrites(fset, []string{"lib.go", "pub.go", "store.go", "diff.go", "codec.go"})
 	case "filestore":
